@@ -25,8 +25,9 @@ type c05Node struct {
 	text     string // for text nodes (name == "")
 }
 
+// raw qualified name; the `svg:` prefix (elements of the SVG namespace written with a prefix) is normalised away
 func c05QName(n xml.Name) string {
-	if n.Space != "" {
+	if n.Space != "" && n.Space != "svg" {
 		return n.Space + ":" + n.Local
 	}
 	return n.Local
@@ -51,6 +52,9 @@ func c05ParseXML(s string) (*c05Node, error) {
 		case xml.StartElement:
 			n := &c05Node{name: c05QName(v.Name)}
 			for _, a := range v.Attr {
+				if a.Name.Space == "xmlns" {
+					continue // namespace declarations of prefixes are compared through the names that use them
+				}
 				n.attrs = append(n.attrs, [2]string{c05QName(a.Name), a.Value})
 			}
 			top.children = append(top.children, n)
